@@ -323,6 +323,7 @@ type Features struct {
 	InitialSync  bool // the history starts with a full synchronisation
 	CNI          bool // CNI-triggered SyncPodChains / SyncPodIPInIPSet operations
 	NonCanon     bool // ipBlock cidr / except values written with host bits set (10.244.1.3/16), as the API accepts them
+	AddWithIP    bool // pods created during the history reach the informer already carrying their address (as after a relist); otherwise they are created without one and the kubelet reports it in an update
 }
 
 func genFeatures(c *core.Choices) Features {
@@ -345,6 +346,7 @@ func genFeatures(c *core.Choices) Features {
 		InitialSync:  c.Prob(1, 2),
 		CNI:          c.Prob(1, 3),
 		NonCanon:     c.Prob(1, 3),
+		AddWithIP:    c.Prob(1, 5),
 	}
 }
 
